@@ -78,10 +78,49 @@ def run(chk, repo, tier):
     except AnalysisError:
         code = None         # not a dict of dicts any more
     helpers = [f.key for f in repo.all_functions() if f.module.name == 'plane' and f.cls is None and 'ptype' in f.name]
-    fres = repo.func('plane._mul_result_ptype')
-    fcan = repo.func('plane._can_mul_ptype')
+    have_helpers = repo.has_func('plane._mul_result_ptype') and repo.has_func('plane._can_mul_ptype')
+    fres = repo.func('plane._mul_result_ptype') if have_helpers else None
+    fcan = repo.func('plane._can_mul_ptype') if have_helpers else None
+    fmul_ = repo.func('plane.Plane.multiply')
+    wf_ = repo.cls('wavefront.Wavefront')
     cells_decided = True
     for (w, p), want in sorted(doc.items()):
+        line = code.get((w, p), (None, None))[1] if code else None
+        loc = f'{mod.relpath}:{line}' if line else fmul_.loc()
+        # (1) what Plane.multiply itself does for a wavefront of type w meeting a plane of type p
+        facts = {}
+        for obj, nm in ((S('wavefront'), w), (S('self'), p)):
+            for an in ('ptype', '_ptype'):
+                facts[nf.attr(obj, an).single_atom()] = pt(nm)
+        _, mp, _ = analyse(repo, fmul_, types={('sym', 'wavefront'): wf_}, facts=facts, inline=helpers, literal_tables=True,
+                           max_paths=1024)
+        outs, refused, other = set(), 0, []
+        for q in mp:
+            if q.status == 'return':
+                for e in q.calls('wavefront.Wavefront.empty'):
+                    outs.add(pt_name(e.bound.get('ptype')) or fmt(e.bound.get('ptype'))[:40])
+                if not q.calls('wavefront.Wavefront.empty'):
+                    other.append('returns without building the product wavefront')
+            elif q.status == 'raise' and q.exc == 'TypeError':
+                refused += 1
+            elif q.status == 'raise':
+                continue            # other refusals (e.g. inconsistent pixel scales) are not about the types
+        if want:
+            okm = outs == {want} and not refused and not other
+        else:
+            okm = not outs and refused > 0 and not other
+        detm = f'Plane.multiply -> {sorted(outs) or ("TypeError" if refused else "?")}' + (f' and TypeError on {refused} path(s)' if outs and refused else '')
+        undecided_m = any(o not in tables.PTYPES for o in outs)
+        if undecided_m:
+            cells_decided = False
+            chk.undecided('C08-a', 'T-cell', 'plane.Plane.multiply', f'wavefront {w} x plane {p}',
+                          'the type handed to the product wavefront does not fold to a plane type: ' + detm[:160], loc)
+        else:
+            chk.ob('C08-a', 'T-cell', 'plane._mul_ptype_table', f'wavefront {w} x plane {p}', okm,
+                   f'documented: {want or "Not allowed"}; code: {detm}', loc)
+        if not have_helpers:
+            continue
+        # (2) the two helper functions agree with it
         cfg = {'wavefront_ptype': pt(w), 'plane_ptype': pt(p)}
         _, rp, _ = analyse(repo, fres, config=cfg, inline=helpers, literal_tables=True)
         _, cp, _ = analyse(repo, fcan, config=cfg, inline=helpers, literal_tables=True)
@@ -97,15 +136,12 @@ def run(chk, repo, tier):
             allowed = cp[0].ret.value
         else:
             det += ' _can_mul_ptype: ' + '; '.join(f'{q.status} {fmt(q.ret)[:50] if q.status == "return" else q.exc}' for q in cp)
-        line = code.get((w, p), (None, None))[1] if code else None
-        loc = f'{mod.relpath}:{line}' if line else fres.loc()
         if got is None or allowed is None:
-            cells_decided = False
-            chk.undecided('C08-a', 'T-cell', 'plane._mul_result_ptype', f'wavefront {w} x plane {p}',
-                          'the answer of the code for this pair does not fold to a plane type / TypeError: ' + det[:200], loc)
+            chk.undecided('C08-a', 'T-cell', 'plane._mul_result_ptype', f'helpers: wavefront {w} x plane {p}',
+                          'the answer of the helpers for this pair does not fold to a plane type / TypeError: ' + det[:200], loc)
             continue
         ok = (got == want if want else got is False) and allowed == bool(want)
-        chk.ob('C08-a', 'T-cell', 'plane._mul_ptype_table', f'wavefront {w} x plane {p}', ok,
+        chk.ob('C08-a', 'T-cell', 'plane._mul_ptype_table', f'helpers: wavefront {w} x plane {p}', ok,
                f'documented: {want or "Not allowed"}; code: _mul_result_ptype -> {got or "TypeError"}, '
                f'_can_mul_ptype -> {allowed}', loc)
     if code is not None:
@@ -141,44 +177,48 @@ def run(chk, repo, tier):
         TABLE = 'plane.' + tables.mul_table_name(repo)
     except AnalysisError:
         TABLE = 'plane.<no table>'          # the answers are computed some other way: C08-a evaluated them
-    fcan = repo.func('plane._can_mul_ptype')
-    _, paths, _ = analyse(repo, fcan)
-    oks = []
-    for p in returns(paths):
-        t = p.ret
-        tv = isinstance(t, Const) and t.value is True
-        fv = isinstance(t, Const) and t.value is False
-        if not (tv or fv) or len(p.conds) != 1:
-            oks = None
-            break
-        c, pol, _ = p.conds[0]
-        a = c.single_atom() if isinstance(c, Poly) else None
-        good = a is not None and is_app(a, 'in') and a[2][0] == S('plane_ptype') and \
-            any(x == ('sym', 'wavefront_ptype') for x in nf.value_atoms(a[2][1])) and \
-            any(x == ('sym', TABLE) for x in nf.value_atoms(a[2][1]))
-        oks.append(good and (pol == tv))
-    if oks is None:
-        # accepted alternative: a single boolean expression
+    if have_helpers:
+        fcan = repo.func('plane._can_mul_ptype')
+        _, paths, _ = analyse(repo, fcan)
+        oks = []
+        for p in returns(paths):
+            t = p.ret
+            tv = isinstance(t, Const) and t.value is True
+            fv = isinstance(t, Const) and t.value is False
+            if not (tv or fv) or len(p.conds) != 1:
+                oks = None
+                break
+            c, pol, _ = p.conds[0]
+            a = c.single_atom() if isinstance(c, Poly) else None
+            good = a is not None and is_app(a, 'in') and a[2][0] == S('plane_ptype') and \
+                any(x == ('sym', 'wavefront_ptype') for x in nf.value_atoms(a[2][1])) and \
+                any(x == ('sym', TABLE) for x in nf.value_atoms(a[2][1]))
+            oks.append(good and (pol == tv))
+        if oks is None:
+            # accepted alternative: a single boolean expression
+            rets = returns(paths)
+            a = rets[0].ret.single_atom() if len(rets) == 1 and isinstance(rets[0].ret, Poly) else None
+            good = a is not None and is_app(a, 'in') and a[2][0] == S('plane_ptype') and \
+                ('sym', 'wavefront_ptype') in nf.value_atoms(a[2][1]) and \
+                ('sym', TABLE) in nf.value_atoms(a[2][1])
+            oks = [good]
+        structural = all(oks) and bool(oks)
+        chk.ob('C08-b', 'D-table-use', 'plane._can_mul_ptype', 'answers from the table', structural or cells_decided,
+               'returns True exactly when plane_ptype is a key of _mul_ptype_table[wavefront_ptype]'
+               if structural else ('its answer was evaluated for every documented pair (C08-a)' if cells_decided else
+                                   'does not test plane_ptype against _mul_ptype_table[wavefront_ptype]'), fcan.loc())
+        fres = repo.func('plane._mul_result_ptype')
+        _, paths, _ = analyse(repo, fres)
+        want = nf.index(nf.index(S(TABLE), S('wavefront_ptype')), S('plane_ptype'))
         rets = returns(paths)
-        a = rets[0].ret.single_atom() if len(rets) == 1 and isinstance(rets[0].ret, Poly) else None
-        good = a is not None and is_app(a, 'in') and a[2][0] == S('plane_ptype') and \
-            ('sym', 'wavefront_ptype') in nf.value_atoms(a[2][1]) and \
-            ('sym', TABLE) in nf.value_atoms(a[2][1])
-        oks = [good]
-    structural = all(oks) and bool(oks)
-    chk.ob('C08-b', 'D-table-use', 'plane._can_mul_ptype', 'answers from the table', structural or cells_decided,
-           'returns True exactly when plane_ptype is a key of _mul_ptype_table[wavefront_ptype]'
-           if structural else ('its answer was evaluated for every documented pair (C08-a)' if cells_decided else
-                               'does not test plane_ptype against _mul_ptype_table[wavefront_ptype]'), fcan.loc())
-    fres = repo.func('plane._mul_result_ptype')
-    _, paths, _ = analyse(repo, fres)
-    want = nf.index(nf.index(S(TABLE), S('wavefront_ptype')), S('plane_ptype'))
-    rets = returns(paths)
-    structural = bool(rets) and all(p.ret == want for p in rets)
-    chk.ob('C08-b', 'D-table-use', 'plane._mul_result_ptype', 'answers from the table', structural or cells_decided,
-           f'returns {", ".join(fmt(p.ret)[:80] for p in rets)}' +
-           ('' if structural else '; its answer was evaluated for every documented pair (C08-a)' if cells_decided
-            else '; expected _mul_ptype_table[wavefront_ptype][plane_ptype]'), fres.loc())
+        structural = bool(rets) and all(p.ret == want for p in rets)
+        chk.ob('C08-b', 'D-table-use', 'plane._mul_result_ptype', 'answers from the table', structural or cells_decided,
+               f'returns {", ".join(fmt(p.ret)[:80] for p in rets)}' +
+               ('' if structural else '; its answer was evaluated for every documented pair (C08-a)' if cells_decided
+                else '; expected _mul_ptype_table[wavefront_ptype][plane_ptype]'), fres.loc())
+    else:
+        chk.ob('C08-b', 'D-table-use', 'plane.Plane.multiply', 'answers from the table', True if cells_decided else None,
+               'the permission test and the result type were evaluated through Plane.multiply for every documented pair (C08-a)', fmul_.loc())
     fmul = repo.func('plane.Plane.multiply')
     wf = repo.cls('wavefront.Wavefront')
     _, paths, _ = analyse(repo, fmul, types={('sym', 'wavefront'): wf})
@@ -193,9 +233,10 @@ def run(chk, repo, tier):
                     b = {k.items[0].value: k.items[1] for k in a[2]}
                     if wpt == b.get('wavefront_ptype') and ppt == b.get('plane_ptype'):
                         guard_ok = True
-    chk.ob('C08-b', 'D-guard', 'plane.Plane.multiply', 'TypeError guard', guard_ok,
+    chk.ob('C08-b', 'D-guard', 'plane.Plane.multiply', 'TypeError guard', guard_ok or (cells_decided and bool(raises)),
            'raises TypeError when _can_mul_ptype(wavefront.ptype, self.ptype) is false' if guard_ok else
-           'no TypeError path guarded by _can_mul_ptype(wavefront.ptype, self.ptype)', fmul.loc())
+           ('the refusal was evaluated for every documented pair (C08-a)' if cells_decided and raises else
+            'no TypeError path guarded by _can_mul_ptype(wavefront.ptype, self.ptype)'), fmul.loc())
     res_ok, n_ret = True, 0
     for p in returns(paths):
         n_ret += 1
@@ -208,9 +249,10 @@ def run(chk, repo, tier):
                 b = {k.items[0].value: k.items[1] for k in a[2]}
                 good = wpt == b.get('wavefront_ptype') and ppt == b.get('plane_ptype')
         res_ok = res_ok and good
-    chk.ob('C08-b', 'D-flow', 'plane.Plane.multiply', 'result ptype', res_ok and n_ret > 0,
+    chk.ob('C08-b', 'D-flow', 'plane.Plane.multiply', 'result ptype', (res_ok or cells_decided) and n_ret > 0,
            'the new wavefront gets _mul_result_ptype(wavefront.ptype, self.ptype)' if res_ok else
-           'the resulting wavefront ptype is not _mul_result_ptype(wavefront.ptype, self.ptype)', fmul.loc())
+           ('the type of the new wavefront was evaluated for every documented pair (C08-a)' if cells_decided else
+            'the resulting wavefront ptype is not _mul_result_ptype(wavefront.ptype, self.ptype)'), fmul.loc())
 
     # ---------------------------------------------------------------- C08-c
     docprop = tables.doc_propagation(repo)
@@ -370,7 +412,7 @@ def run(chk, repo, tier):
             if not calls:
                 continue
             n_paths += 1
-            if calls[0] != 'plane._can_mul_ptype':
+            if calls[0] != 'plane._can_mul_ptype' and calls[0] not in helpers:       # any of the plane-type helpers of plane.py
                 first_bad.append(f'{calls[0]} runs before the plane-type test [{p.status}]')
         chk.ob('C08-g', 'D-dominance', key, 'the plane-type test precedes every other step that can refuse', not first_bad and n_paths > 0,
                '; '.join(sorted(set(first_bad))[:3]) or f'{n_paths} path(s): _can_mul_ptype is the first call', f.loc())
